@@ -144,8 +144,29 @@ def _check_points(cols, args):
   got = _run_optimal(name, _rep(rank_cols))
   with NoTracing():
     want = [int(w) if name == 'nsga2rank' else bool(w) for w in want]
+    ok = got == want
+    # +-inf: an infinite coordinate is just the top / bottom element of that coordinate's order, so every order type
+    # also stands for the point sets in which the largest values of a coordinate are +inf and/or the smallest are -inf.
+    if ok and os.environ.get('VERIF_PARETO_INF', '1') == '1':
+      base = _rep(rank_cols)
+      d = base.shape[1]
+      for mask in range(1, 3 ** d):
+        arr = base.copy()
+        m = mask
+        for c in range(d):
+          kind = m % 3
+          m //= 3
+          col = base[:, c]
+          if kind == 1:
+            arr[col == col.max(), c] = np.inf
+          elif kind == 2 and col.min() < col.max():
+            arr[col == col.min(), c] = -np.inf
+        if _run_optimal(name, arr) != want:
+          ok = False
+          reach('inf_variant_failed')
+          break
   reach(name)
-  return finish(got == want, args, obs=name)
+  return finish(ok, args, obs=name)
 
 
 def points_3x2(x0: int, y0: int, x1: int, y1: int, x2: int, y2: int) -> bool:
